@@ -273,7 +273,9 @@ impl EventGen for Container {
                 if new_el.name == "svg"
                     && new_el.get_attr("xmlns").as_deref() == Some("http://www.w3.org/2000/svg")
                 {
-                    return Ok((self.0.all_events(context).into_raw_output(), None));
+                    let raw = self.0.all_events(context);
+                    register_raw_elements(&raw, context);
+                    return Ok((raw.into_raw_output(), None));
                 }
                 new_el.eval_attributes(context)?;
                 if context.config.add_metadata {
@@ -590,6 +592,17 @@ impl EventGen for IfElement {
     }
 }
 
+/// The content of a nested `<svg xmlns="http://www.w3.org/2000/svg">` is passed
+/// through unprocessed, but ids are document-wide: its elements (other than the
+/// `<svg>` itself, which stays an opaque block) can be referred to from outside it.
+fn register_raw_elements(raw: &InputList, context: &mut TransformerContext) {
+    for ev in raw.iter().skip(1) {
+        if let Ok(el) = SvgElement::try_from(ev.clone()) {
+            context.update_element(&el);
+        }
+    }
+}
+
 /// Check if the input events represent a "real" SVG document
 ///
 /// This is determined by checking for the first Start event being `<svg>`
@@ -635,7 +648,9 @@ impl EventGen for Tag {
                 let (ev, bb) = if el.name == "svg"
                     && el.get_attr("xmlns").as_deref() == Some("http://www.w3.org/2000/svg")
                 {
-                    (el.all_events(context).into_raw_output(), None)
+                    let raw = el.all_events(context);
+                    register_raw_elements(&raw, context);
+                    (raw.into_raw_output(), None)
                 } else {
                     // (defaults are for elements which are drawn; given to a <var> they
                     // would be taken for variable assignments)
